@@ -59,7 +59,7 @@ TABLE['C04'] = {
 }
 
 TABLE['C11'] = {
-    'modules': ['contracts.glob'],
+    'modules': ['contracts.glob', 'contracts.regencheck'],
     'level': 'proof',
     'assumptions': [
         'path components and per-component matchers are abstract (uninterpreted sorts; M(matcher, component)); that the matcher '
